@@ -98,7 +98,7 @@ Proof.
     pose proof (fr_len _ _ (run_frame _ _ _ _ _ E1)) as L1.
     apply IHxs with (n0 := n0) in E; try lia.
     destruct acc; try tauto. destruct acc'; try tauto. destruct r; auto.
-    destruct H1 as [H1|H1]; destruct E as [E|E]; subst; auto; right; unfold addr in *; lia.
+    destruct H1 as [H1|H1]; destruct E as [E|E]; subst; auto; right; try (eapply Nat.le_trans; [exact Hn|exact H1]); auto.
 Qed.
 
 (* the first append on the zero-capacity constant always reallocates *)
